@@ -12,7 +12,8 @@
    Memory: every byte the code reads from a wire buffer goes through [rd]; a read outside the
    buffer is the result [PFault].  Loops run on fuel; [POutOfFuel] is a separate result. *)
 From Coq Require Import List NArith ZArith Bool.
-From LTV Require Import Common.Bytes Params_gen.
+From LTV Require Import Common.Bytes.
+From LTV.C14 Require Import ParamsGen.
 From LTV.C07 Require Import Model.
 Import ListNotations.
 Local Open Scope N_scope.
@@ -29,6 +30,12 @@ Definition addr_ip (x : addr) : N := match x with A4 a _ => a | A6 a _ => a end.
 Definition addr_is_v4 (x : addr) : bool := match x with A4 _ _ => true | A6 _ _ => false end.
 (* INADDR_ANY / in6addr_any *)
 Definition addr_unspecified (x : addr) : bool := addr_ip x =? 0.
+(* sa_is_any: INADDR_ANY, in6addr_any, and the v4-mapped ::ffff:0.0.0.0 *)
+Definition addr_is_any (x : addr) : bool :=
+  match x with
+  | A4 a _ => a =? 0
+  | A6 a _ => if a / 4294967296 =? 65535 then a mod 4294967296 =? 0 else a =? 0
+  end.
 
 Inductive pres (A : Type) :=
 | POk (a : A)
@@ -235,6 +242,7 @@ Definition normal_entry (v : value) : option addr :=
       match map_lookup key_ip m, map_lookup key_port m with
       | Some (VStr ip), Some (VInt port) =>
           if (port <=? 0)%Z || (port_limit <=? port)%Z then None
+          else if existsb (fun c => c =? 0) ip then None          (* addr.find('\0') != npos *)
           else
             let s := cstr ip in
             match pton4 s with
@@ -337,7 +345,7 @@ Section InsertAvailable.
     | [] => (av, inserted)
     | x :: al' =>
         if negb (alen av <? maxsz) then (av, inserted)
-        else if addr_port x =? 0 then ia_loop al' av old maxsz inserted
+        else if (addr_port x =? 0) || addr_is_any x then ia_loop al' av old maxsz inserted
         else
           let old1 := find_less old x in
           match old1 with
